@@ -38,15 +38,19 @@ pub fn candidates(seed: u64) -> Vec<Value> {
     // every key has ONE hash (a function of the key); different keys may share a hash or a slot
     let mut s = seed.wrapping_add(555);
     let mut nx = |n: u64| { s = s.wrapping_mul(6364136223846793005).wrapping_add(1442695040888963407); (s >> 33) % n };
-    for round in 0..600 {
-        let nkeys = 2 + nx(6);
-        let hashes: Vec<u64> = (0..nkeys).map(|_| match nx(3) { 0 => nx(4), 1 => nx(4) + 16 * nx(4), _ => nx(1 << 20) }).collect();
-        let len = 4 + nx(if round < 300 { 10 } else { 40 });
+    for round in 0..3000 {
+        let nkeys = 2 + nx(if round < 1500 { 6 } else { 14 });
+        // hashes that differ in low bits, in bits just above the initial capacity (they move when the table grows), or anywhere
+        let hashes: Vec<u64> = (0..nkeys).map(|_| match nx(4) { 0 => nx(4), 1 => nx(4) + 4 * nx(8), 2 => nx(64), _ => nx(1 << 20) }).collect();
+        let len = 4 + nx(if round < 1500 { 12 } else { 60 });
         let mut ops = vec![];
         for i in 0..len {
             let k = nx(nkeys);
-            if nx(2) == 0 { ops.push(json!(["ins", k, 1000 + i, hashes[k as usize]])); } else { ops.push(json!(["get", k, hashes[k as usize]])); }
+            // overwrites of the same key are frequent: staleness after growth needs them
+            if nx(3) != 0 { ops.push(json!(["ins", k, 1000 + i, hashes[k as usize]])); } else { ops.push(json!(["get", k, hashes[k as usize]])); }
         }
+        // read everything back at the end
+        for k in 0..nkeys { ops.push(json!(["get", k, hashes[k as usize]])); }
         out.push(json!({"case": "lru_seq", "cap": 1 + nx(2), "ops": ops}));
     }
     out.sort_by_key(|c| c["ops"].as_array().map(|a| a.len()).unwrap_or(0));
